@@ -10,7 +10,7 @@ From Coq Require Import ZArith List Lia Zdiv Znumtheory Morphisms Setoid.
 From Verif Require Import Lib.Params Lib.Words Lib.Powmod Lib.NumberTheory
   Lib.Primes Model.FfgLimbs Proofs.FfgArith Proofs.FfgMont.
 Import ListNotations.
-Local Open Scope Z_scope.
+Local Open Scope Z_scope. Set Default Timeout 30.
 
 Local Ltac Zify.zify_post_hook ::= Z.div_mod_to_equations.
 Local Ltac zl := unfold canon, u64, pg, W in *; lia.
